@@ -116,6 +116,29 @@ func (x *Exec) jsonUnmarshal(fr *Frame, st *State, args []*Value, resT types.Typ
 	ptr := target.Boxed
 	t := derefType(ptr)
 	x.safetyOblige(fr, st, "nil", "json.Unmarshal into nil pointer", Neq(ptrBase(ptr.P, x), x.null()), pos)
+	// Unmarshal into **S: the existing S is filled (a new one is allocated when the pointer is nil)
+	if pt, isPtr := under(t).(*types.Pointer); isPtr {
+		if _, isStruct := under(pt.Elem()).(*types.Struct); isStruct {
+			inner := x.load(st, ptr.P, t)
+			if inner.K == KPtr && inner.P.Cell == nil && !inner.P.Elem && len(inner.P.Path) == 0 {
+				fresh := x.freshRef(st, "json_new")
+				base := Ite(Neq(inner.P.Base, x.null()), inner.P.Base, fresh)
+				np := &Pointer{Base: x.name("jp", base), ObjT: pt.Elem()}
+				st2 := pt.Elem()
+				ok := x.jok(st2, d)
+				oldS := x.load(st, np, st2)
+				oldS = x.iteValueLoose(Neq(inner.P.Base, x.null()), oldS, x.zeroValue(st2))
+				dec := x.jsonMerge(st2, d, oldS)
+				junk := x.freshValue("json_partial", st2, st.guard)
+				x.boundRefs(junk, x.allocNow())
+				x.store(st, np, x.iteValueLoose(ok, dec, junk))
+				x.store(st, ptr.P, &Value{K: KPtr, T: t, P: np})
+				errV := x.freshValue("json_err", resT, st.guard)
+				x.assume(st, Eq(Eq(errV.Tag, IntLit(0)), ok))
+				return errV
+			}
+		}
+	}
 	ok := x.jok(t, d)
 	old := x.load(st, ptr.P, t)
 	dec := x.jsonMerge(t, d, old)
